@@ -11,6 +11,7 @@ RULE = (
     "1e-3..1e3 x real/complex x shapes (N,), (1,N), (B,N), (B,A,N), (B,A,H,W) x signal families {Gaussian, uniform, OFDM-like, heavy-tailed, constant, sign-alternating, one-sided negative, negative spikes} x input "
     "scales 1e-2..1e4 x random chains of 2-4 constraints. Per item (index along dim 0 when batched, else the whole tensor): power law, positive real scaling, idempotence, scale "
     "invariance, peak / PAPR bounds, composite = sequential application. Distinct = (constraint configuration, signal family, shape, scale, seed); non-trivial = non-zero item."
+    " Added after the seeded-fault rounds: batch-of-1 3-D/4-D layouts, one-sided negative and negative-spike signals, integer-valued int16/int32/int64/float64 inputs, constraints built through ConstraintRegistry.create as a sequence of different values compared with direct construction."
 )
 ASSUMPTIONS = [
     "non-negligible power: input mean power >= 1e-4 (the library adds 1e-8 to its denominators); zero / negligible items are exempt from ratio and equality clauses",
